@@ -954,6 +954,11 @@ def _reset_part(ctx, res, prop, name, m, rec, cfg, pbm0, cap2, driver=True):
         f.setPSDrecording(True)
     if reconf is not None:
         reconf(f)
+    if getattr(rec, 'stop_spec', None) is not None:
+        # the fresh model carries the same stopping condition: a condition met in the run BEFORE the reset must not be met any
+        # more after it, so both runs stop at the same step (or both reach the cap)
+        from kawin.precipitation.StoppingConditions import Inequality
+        f.addStoppingCondition(rec.stop_spec[0](Inequality.GREATER_THAN, rec.stop_spec[1]), 'or')
     kwnruns.run(f, rec.simt, solver=solver, max_steps=cap2)
     na, nb = int(m.pData.n), int(f.pData.n)
     if na != nb:
@@ -999,10 +1004,11 @@ def _one(ctx, res, prop, name, cap, observer, oracles=(), driver=True):
         # `@stop`: a stopping condition that IS met during the run (the run ends by the condition, not by the step cap): the
         # step that ends the run is a step like any other - row appended, distribution updated, coupled models updated
         from kawin.precipitation.StoppingConditions import PrecipitateDensityCondition, VolumeFractionCondition, Inequality
-        sc = (PrecipitateDensityCondition(Inequality.GREATER_THAN, 10 ** rng.uniform(9, 16)) if rng.random() < 0.5
-              else VolumeFractionCondition(Inequality.GREATER_THAN, 10 ** rng.uniform(-16, -10)))
-        m.addStoppingCondition(sc, 'or')
+        stop_spec = ((PrecipitateDensityCondition, 10 ** rng.uniform(9, 16)) if rng.random() < 0.5
+                     else (VolumeFractionCondition, 10 ** rng.uniform(-16, -10)))
+        m.addStoppingCondition(stop_spec[0](Inequality.GREATER_THAN, stop_spec[1]), 'or')
     rec = attach(m, capture_setup=not m._isSetup)
+    rec.stop_spec = stop_spec if 'stop' in opts else None
     try:
         solver = 'rk4' if 'rk4' in opts else 'euler'
         if '2solves' in opts:
